@@ -12,7 +12,87 @@ from . import c01, c04, c05, c06, c08
 
 THEOREMS = ["C14_decision_open", "C14_decision_write", "C14_bit", "C14_one_vlr", "C14_hidden", "C14_no_dup",
             "C14_user_vlrs", "C14_transparent", "stub_codecLaws", "sessionC_form", "C14_file_roundtrip", "C14_file_transparent", "stub_appendLaws", "readFileC_form",
-            "C14_append_roundtrip"]
+            "C14_append_roundtrip",
+            "sel_flags", "sel_all_base", "sel_skip_decompress", "sel_lazrs_map", "sel_laszip_map", "toBackend_lazrs", "toBackend_laszip",
+            "selection_faithful", "C14_selection_lazrs", "C14_selection_laszip", "stub_disjoint", "laszip_disjoint", "stub_values", "stub_all"]
+
+# the constants of laszip_api.h (no laszip module can be installed here; `to_laszip` only needs these names)
+LASZIP_CONSTANTS = {"DECOMPRESS_SELECTIVE_CHANNEL_RETURNS_XY": 0, "DECOMPRESS_SELECTIVE_Z": 1, "DECOMPRESS_SELECTIVE_CLASSIFICATION": 2,
+                    "DECOMPRESS_SELECTIVE_FLAGS": 4, "DECOMPRESS_SELECTIVE_INTENSITY": 8, "DECOMPRESS_SELECTIVE_SCAN_ANGLE": 16,
+                    "DECOMPRESS_SELECTIVE_USER_DATA": 32, "DECOMPRESS_SELECTIVE_POINT_SOURCE": 64, "DECOMPRESS_SELECTIVE_GPS_TIME": 128,
+                    "DECOMPRESS_SELECTIVE_RGB": 256, "DECOMPRESS_SELECTIVE_NIR": 512, "DECOMPRESS_SELECTIVE_WAVEPACKET": 1024,
+                    "DECOMPRESS_SELECTIVE_EXTRA_BYTES": 0xFFFF0000}
+
+
+def selection_layer(ck):
+    """every value of the 13-bit selection: what `to_lazrs` / `to_laszip` hand the backend == the model's translation; the
+    per-flag helper methods, `all()` and `base()` == the generated tables"""
+    import sys
+    import types
+    from laspy import DecompressionSelection as DS
+    lines, exp = [], []
+
+    def live(fn):
+        try:
+            r = fn()
+            return str(int(getattr(r, "value", r)))
+        except KeyError:
+            return "KeyError"
+        except Exception as e:
+            return f"{type(e).__name__}"
+
+    fake = types.ModuleType("laszip")
+    for k, v in LASZIP_CONSTANTS.items():
+        setattr(fake, k, v)
+    had = sys.modules.get("laszip")
+    sys.modules["laszip"] = fake
+    try:
+        members = list(DS)
+        for k in range(1 << len(members)):
+            sel = DS(k)
+            lines.append(f"sel lazrs {k}")
+            exp.append(live(sel.to_lazrs))
+            lines.append(f"sel laszip {k}")
+            exp.append(live(sel.to_laszip))
+            ck.evaluations += 2
+        ck.case(("selection", "all values"))
+        lines.append("sel tables")
+        skip = [int(getattr(DS.all(), "skip_" + m.name.lower())()) for m in members]
+        dec = [int(getattr(DS.base(), "decompress_" + m.name.lower())()) for m in members]
+        exp.append(f"all={int(DS.all())} base={int(DS.base())} skip={skip} dec={dec}")
+        # the helper methods on arbitrary selections (the tables above pin them on all() / base() only)
+        for _ in range(300):
+            k = ck.rng.randrange(1 << len(members))
+            m = ck.rng.choice(members)
+            a = int(getattr(DS(k), "skip_" + m.name.lower())())
+            b = int(getattr(DS(k), "decompress_" + m.name.lower())())
+            c = bool(getattr(DS(k), "is_set_" + m.name.lower())())
+            ck.evaluations += 1
+            if a != (k & ~int(m)) or b != (k | int(m)) or c != bool(k & int(m)):
+                ck.fail(f"DecompressionSelection({k}): skip/decompress/is_set of {m.name} give {a}, {b}, {c}; "
+                        f"expected {k & ~int(m)}, {k | int(m)}, {bool(k & int(m))}", {"kind": "selection_methods", "sel": k, "flag": m.name})
+    finally:
+        if had is None:
+            sys.modules.pop("laszip", None)
+        else:
+            sys.modules["laszip"] = had
+    out = ck.driver(lines)
+    bad = None
+    if out is None or len(out) != len(lines):
+        bad = "driver did not run"
+    else:
+        for ln, o, e in zip(lines, out, exp):
+            if o != e:
+                bad = f"{ln}: model {o}, laspy {e}"
+                parts = ln.split()
+                if len(parts) == 3:
+                    ck.fail(f"DecompressionSelection({parts[2]}).to_{parts[1]}() hands the backend {e}; every selected field's constant "
+                            f"(and only those, plus the always-on one) gives {o}", {"kind": "selection", "backend": parts[1], "sel": int(parts[2])})
+                else:
+                    ck.fail(f"selection tables: laspy {e}, model {o}", {"kind": "selection_tables"})
+                break
+    ck.oblige("correspondence selection: to_lazrs / to_laszip on all 8192 selections and the helper-method tables == model", "correspondence", bad is None, bad or "")
+
 
 
 def laszip_count_in_file(data):
@@ -55,6 +135,56 @@ def canon_no_layout(las):
     parts[10] = str(int(parts[10]) & 0x3F)
     parts[16] = "EVLRSTART"
     return " ".join(parts)
+
+
+def extra_dims_history_layer(ck, n_cases):
+    """objects whose extra dimensions were added and removed - with the object described in between (repr of the header, of the point format, the
+    record length asked for) - written compressed and uncompressed: the two files must read alike"""
+    import laspy
+    from laspy import ExtraBytesParams, LazBackend
+    for ci in range(n_cases):
+        minor, fmt = fio.PAIRS[(5 * ci + 2) % len(fio.PAIRS)]
+        n = [3, 7, 12][ci % 3]
+        las = fio.make_las(ck.rng, minor, fmt, n)
+        names = ["ea", "eb", "ec"]
+        las.add_extra_dims([ExtraBytesParams(name=nm, type=t) for nm, t in zip(names, ck.rng.sample(["u1", "i2", "u4", "f8", "3u2", "i8"], 3))])
+        for nm in names:
+            las[nm] = np.arange(n * int(np.prod(las[nm].shape[1:]) or 1)).reshape(las[nm].shape).astype(las[nm].dtype)
+        looks = ["repr_header", "str_format", "num_extra_bytes", "size", "none"][ci % 5]
+        def look():
+            if looks == "repr_header":
+                return repr(las.header)
+            if looks == "str_format":
+                return str(las.point_format), repr(las.point_format)
+            if looks == "num_extra_bytes":
+                return las.point_format.num_extra_bytes, las.header.point_format.num_extra_bytes
+            if looks == "size":
+                return las.point_format.size, las.point_format.num_standard_bytes
+        look()
+        removed = ck.rng.sample(names, ck.rng.choice([1, 2]))
+        las.remove_extra_dims(removed)
+        look()
+        if ci % 2:
+            las.add_extra_dim(ExtraBytesParams(name="late", type="u2"))
+            look()
+        inp = {"kind": "extra_dims_history", "minor": minor, "fmt": fmt, "n": n, "looked_at": looks, "removed": removed, "added_late": bool(ci % 2)}
+        ck.case(("extra_dims_history", minor, fmt, n, looks, tuple(removed), ci % 2), nontrivial=True)
+        ck.count("extra_dims_history:" + looks)
+        try:
+            comp, plain = io.BytesIO(), io.BytesIO()
+            las.write(plain)
+            las.write(comp, do_compress=True, laz_backend=LazBackend.Lazrs)
+            a = laspy.read(io.BytesIO(comp.getvalue()), laz_backend=LazBackend.Lazrs)
+            b = laspy.read(io.BytesIO(plain.getvalue()))
+        except Exception as e:
+            ck.fail(f"after removing {removed} (having looked at {looks}): compressed / uncompressed write + read raised {type(e).__name__}: {e}", inp)
+            continue
+        if canon_no_layout(a) != canon_no_layout(b):
+            x, y = canon_no_layout(a), canon_no_layout(b)
+            k0 = next((i for i in range(min(len(x), len(y))) if x[i] != y[i]), -1)
+            ck.fail(f"after removing {removed} (having looked at {looks}): reading the compressed file differs from reading the uncompressed one at char {k0}", inp)
+        if b.points.array.tobytes() != las.points.array.tobytes():
+            ck.fail(f"after removing {removed}: the uncompressed file does not hold the object's records", inp)
 
 
 def run(ck):
@@ -322,6 +452,8 @@ def run(ck):
                 k0 = next((i for i in range(min(len(o), len(exp))) if o[i] != exp[i]), min(len(o), len(exp)))
                 bad = f"{inp}: model '{o[:200]}' impl '{exp[:200]}' (first difference at char {k0}: model ...{o[max(0, k0 - 20):k0 + 40]} impl ...{exp[max(0, k0 - 20):k0 + 40]})"
     ck.oblige("correspondence compress/glue: model decisions / compressed bit / LasZip bookkeeping / whole compressed files byte for byte (sessionC and appendSessionC on the written-out backend double) / readFileC == laspy's glue on the backend double", "correspondence", bad is None, bad or "")
+    selection_layer(ck)
+    extra_dims_history_layer(ck, 15 if q else 300)
     ck.failures.sort(key=lambda f: (f["input"].get("n", 0), len(str(f["input"]))))
     if ck.tier == "thorough":
-        ck.leanchecker(["LasModel.Props.C14", "LasModel.Props.C14File", "LasModel.Props.C14Append"])
+        ck.leanchecker(["LasModel.Props.C14", "LasModel.Props.C14File", "LasModel.Props.C14Append", "LasModel.Props.C14Sel"])
